@@ -12,7 +12,7 @@ import subprocess
 import threading
 from multiprocessing import Pool
 
-NAMES = ["a", "d/b", ".copiarc", "with space/q'uote", "d\\b", "raw\udcff.bin", "d"]          # 'd\\b' is ONE component containing a backslash; the last name is the byte string b'raw\\xff.bin' (not UTF-8); 'd' is a FILE named like the directory of 'd/b' (one tree never holds both)
+NAMES = ["a", "d/b", ".copiarc", "with space/q'uote", "d\\b", "raw\udcff.bin", "d", "d.txt"]          # 'd\\b' is ONE component containing a backslash; the last name is the byte string b'raw\\xff.bin' (not UTF-8); 'd' is a FILE named like the directory of 'd/b' (one tree never holds both); 'd.txt' sorts BEFORE 'd/b' as a string and AFTER it as a path
 CONTENT = {1: b"one-" * 50 + b"\n", 2: b"two!" * 700 + b"\n" + b"\0" * 140_000, 3: b"", 4: b"four" * 20000}
 BY_BYTES = {v: k for k, v in CONTENT.items()}
 CFG = {}
